@@ -355,10 +355,10 @@ impl Property for C02 {
             corpus = corpus.into_iter().enumerate().filter(|(i, _)| i % 2 == 0).map(|(_, c)| c).collect();
         }
         vec![
-            Family::random("hostile", tier.n(4000, 120_000), fam_hostile),
-            Family::random("passthrough", tier.n(1500, 30_000), fam_passthrough),
-            Family::random("lenient", tier.n(400, 3000), fam_lenient),
-            Family::random("docgen", tier.n(2000, 50_000), fam_docgen),
+            Family::random("hostile", tier.n(16_000, 120_000), fam_hostile),
+            Family::random("passthrough", tier.n(6_000, 30_000), fam_passthrough),
+            Family::random("lenient", tier.n(1_600, 3000), fam_lenient),
+            Family::random("docgen", tier.n(8_000, 50_000), fam_docgen),
             Family::fixed("corpus", corpus),
         ]
     }
